@@ -16,8 +16,23 @@ extern SuperscalarInstruction rxv_null_instruction; extern const DecoderBuffer* 
 extern int g_db_size;            /* slots of the current decode buffer (3 or 4: the six configurations of Table 6.3.1) */
 extern int g_cur_size;           /* macro-ops of the instruction in flight (0 for the null instruction) */
 extern int g_last_commit;        /* cycle of the latest committed macro-op, -1 before the first */
-extern unsigned g_created;       /* instructions created so far */
+extern unsigned g_created;       /* instructions created so far (some are thrown away) */
+extern unsigned g_emitted;       /* instructions written into the program so far */
 
+#ifdef RXV_STANDINS_AS_FUNCTIONS
+/* declarations only: the harness defines these stand-ins as functions with the same ranges / requirements (see harness_ss_generate.c) */
+const DecoderBuffer* rxv_db_fetchNext(const DecoderBuffer* db, int type, int decodeCycle, int mulCount, Blake2Generator* gen);
+int rxv_db_size(const DecoderBuffer* db); int rxv_db_count(const DecoderBuffer* db, int slot); int rxv_db_index(const DecoderBuffer* db);
+int rxv_cur_type(SuperscalarInstruction* c); int rxv_cur_size(SuperscalarInstruction* c);
+void rxv_cur_create(SuperscalarInstruction* c, Blake2Generator* gen, int slotSize, int fetchType, bool isLast, bool isFirst);
+const MacroOp* rxv_cur_op(SuperscalarInstruction* c, int index); int rxv_cur_srcop(SuperscalarInstruction* c); int rxv_cur_dstop(SuperscalarInstruction* c); int rxv_cur_resultop(SuperscalarInstruction* c);
+bool rxv_cur_select_src(SuperscalarInstruction* c, int cycle, RegisterInfo* registers, Blake2Generator* gen);
+bool rxv_cur_select_dst(SuperscalarInstruction* c, int cycle, bool allowChainedMul, RegisterInfo* registers, Blake2Generator* gen);
+int rxv_cur_dst(SuperscalarInstruction* c); int rxv_cur_group(SuperscalarInstruction* c); int rxv_cur_grouppar(SuperscalarInstruction* c);
+void rxv_cur_emit(SuperscalarInstruction* c, Instruction* instr); int rxv_mop_latency(const MacroOp* m); int rxv_mop_size(const MacroOp* m); int isMultiplication(int type);
+int rxv_schedule_probe(const MacroOp* m, int (*portBusy)[3], int cycle, int depCycle); int rxv_schedule_commit(const MacroOp* m, int (*portBusy)[3], int cycle, int depCycle);
+Instruction* rxv_emitted(SuperscalarProgram* prog, int i);
+#else
 const DecoderBuffer* rxv_db_fetchNext(const DecoderBuffer* db, int type, int decodeCycle, int mulCount, Blake2Generator* gen)
 __CPROVER_requires(decodeCycle >= 0 && decodeCycle < 170) __CPROVER_assigns(g_db_size) __CPROVER_ensures(g_db_size >= 3 && g_db_size <= 4);
 int rxv_db_size(const DecoderBuffer* db) __CPROVER_requires(1) __CPROVER_assigns() __CPROVER_ensures(__CPROVER_return_value == g_db_size);
@@ -58,24 +73,27 @@ Instruction* rxv_emitted(SuperscalarProgram* prog, int i)
 __CPROVER_requires(i >= 0 && i < SuperscalarMaxSize) __CPROVER_assigns()
 __CPROVER_ensures(__CPROVER_return_value == &prog->programBuffer[i] && __CPROVER_return_value->dst < 8 && __CPROVER_return_value->src < 8);
 
+#endif
 void generateSuperscalar(SuperscalarProgram* prog, Blake2Generator* gen)
-__CPROVER_requires(__CPROVER_is_fresh(prog, sizeof(*prog)) && g_cur_size == 0 && g_last_commit == -1 && g_created == 0)
-__CPROVER_assigns(__CPROVER_object_whole(prog), g_db_size, g_cur_size, g_last_commit, g_created)
+__CPROVER_requires(__CPROVER_is_fresh(prog, sizeof(*prog)) && g_cur_size == 0 && g_last_commit == -1 && g_created == 0 && g_emitted == 0)
+__CPROVER_assigns(__CPROVER_object_whole(prog), g_db_size, g_cur_size, g_last_commit, g_created, g_emitted)
 __CPROVER_ensures(prog->size <= (uint32_t)SuperscalarMaxSize && prog->addrReg >= 0 && prog->addrReg < 8);
 
 /* arithmetic overflow of the statistics counters (cycle, codeSize, macroOpCount, ...) is not part of this obligation:
    the signed-overflow check is off for it */
-#define RXV_GEN_COMMON (programSize >= 0 && programSize <= SuperscalarMaxSize && (unsigned)programSize <= g_created && g_created <= (unsigned)programSize + 1 \
-	&& (g_created == (unsigned)programSize + 1) == (macroOpIndex < g_cur_size) && macroOpIndex >= 0 && g_cur_size >= 0 && g_cur_size <= 4 \
-	&& (g_last_commit < 170 || portsSaturated) && cycle >= 0 && throwAwayCount >= 0 && throwAwayCount <= MAX_THROWAWAY_COUNT)
+#define RXV_CUR_SIZE (currentInstruction.info_ == rxv_null_instruction.info_ ? 0 : g_cur_size)
+#define RXV_GEN_COMMON (programSize >= 0 && programSize <= SuperscalarMaxSize && g_emitted == (unsigned)programSize \
+	&& (macroOpIndex >= RXV_CUR_SIZE || programSize < SuperscalarMaxSize)   /* an instruction in flight still has room in the buffer */ \
+	&& macroOpIndex >= 0 && g_cur_size >= 0 && g_cur_size <= 4 \
+	&& (g_last_commit < 170 || portsSaturated) && throwAwayCount >= 0 && throwAwayCount <= MAX_THROWAWAY_COUNT)
 #define RXV_GEN_OUTER_INVARIANT \
 	__CPROVER_assigns(decodeCycle, decodeBuffer, currentInstruction, macroOpIndex, codeSize, macroOpCount, cycle, depCycle, retireCycle, portsSaturated, programSize, mulCount, throwAwayCount, \
-		__CPROVER_object_whole(registers), __CPROVER_object_whole(prog), g_db_size, g_cur_size, g_last_commit, g_created) \
+		__CPROVER_object_whole(registers), __CPROVER_object_whole(prog), g_db_size, g_cur_size, g_last_commit, g_created, g_emitted) \
 	__CPROVER_loop_invariant(decodeCycle >= 0 && decodeCycle <= 170 && RXV_GEN_COMMON) \
 	__CPROVER_decreases(170 - decodeCycle)
 #define RXV_GEN_INNER_INVARIANT \
 	__CPROVER_assigns(bufferIndex, currentInstruction, macroOpIndex, codeSize, macroOpCount, cycle, depCycle, retireCycle, portsSaturated, programSize, mulCount, throwAwayCount, \
-		__CPROVER_object_whole(registers), __CPROVER_object_whole(prog), g_cur_size, g_last_commit, g_created) \
+		__CPROVER_object_whole(registers), __CPROVER_object_whole(prog), g_cur_size, g_last_commit, g_created, g_emitted) \
 	__CPROVER_loop_invariant(bufferIndex >= 0 && bufferIndex <= g_db_size && g_db_size >= 3 && g_db_size <= 4 && RXV_GEN_COMMON) \
 	__CPROVER_decreases(g_db_size - bufferIndex, MAX_THROWAWAY_COUNT - throwAwayCount)
 #define RXV_GEN_ASIC_INVARIANT \
